@@ -209,7 +209,7 @@ func c10Run(r *vkit.Run) {
 	}
 	n, bound := 2, 2
 	if r.Thorough() {
-		n, bound = 3, 2
+		n, bound = 3, 3
 	}
 	idx := 0
 	var tuples [][]int
@@ -241,8 +241,11 @@ func c10Run(r *vkit.Run) {
 				}
 				for _, rg := range []bool{false, true} {
 					b := bound
-					if len(tu) == 3 && rg {
-						b = 1
+					if len(tu) == 3 {
+						b = 2
+						if rg {
+							b = 1
+						}
 					}
 					c10Check(r, c10Input{Sets: tu, Shape: shape, Grouping: g, Range: rg, Bound: b}, nil)
 				}
